@@ -2,14 +2,34 @@
 PID = "C02"
 RULE = ("k = 2..5 logical connections over one physical session per carrier; the first is opened and then idles / has a slow reader holding "
         "1 MiB unread / is closed / is busy; every further connection must open and echo its own tagged payload within 3 s; "
-        "distinct_nontrivial = distinct (carrier, k, scenario)")
+        "handler scripts (c02h): the real per-session handler, alone and behind the real client, over an in-memory carrier with recording "
+        "channels - several connections, one ended in every way (application, target, target failure, dial failing at once or late with a "
+        "newer connection open, refusal, stream dropped before selection, slow dial, 300 refusals), the others probed for data, goroutines, "
+        "stream and target connection; distinct_nontrivial = distinct (carrier, k, scenario) resp. distinct scripts")
 EXPLANATION = ("Props/C02.v: with the handler on its own goroutine (read from the source) a pending stream is served after loop steps alone; "
                "inline handling is refuted by witness. Isolation of bytes rests on the multiplexer's per-stream FIFO (hypothesis), exercised "
                "here with per-connection tags. The smux open race (server-first multistream header vs late stream registration) is a known "
-               "finding pinned by 20 ms of server->client latency in other checks.")
-TRUSTED = ["xtaci/smux per-stream FIFO and flow control: hypothesis, exercised only", "Go scheduler fairness"]
+               "finding pinned by 20 ms of server->client latency in other checks. "
+               "Handler model (Mux/Handler.v, shared with C14): every stream, target connection, goroutine (accept loop, one handler per stream, two copy "
+               "loops per piped connection) and report channel explicit, program counters over the statements of acceptStream / multiplexToUpstream / "
+               "muxHandler / PipeData, arbitrary schedule and environment. Proved for every event list: FRAME - an event of connection i changes no other "
+               "connection's record and no session state, and every close ever made was made by the owner of what it closed (c02_handler_frame, "
+               "c02_handler_closes_are_own); INDEPENDENCE - what connection j can do next and what becomes of it is a function of j's own record and the "
+               "session's fate only (c02_handler_independent), and the accept loop takes up the oldest waiting stream with its next step whatever the "
+               "others do (c02_handler_accept_serves). Refuted with computed witnesses: the error path closing a variable shared by all iterations (a "
+               "healthy newer connection torn down by a late dial failure), a session-wide lock around the dial, a slot semaphore leaked on error "
+               "returns. The switches (which variable the error path closes, the deferred close, lock, semaphore, close mapping of PipeData, channel "
+               "capacities) are read from the source by role on every run (Gen/HandlerShape.v); the extracted model follows them and is compared token "
+               "for token with the real handler (c02h raw) and with the real client in front of it (c02h cli).")
+TRUSTED = ["xtaci/smux per-stream FIFO and flow control: hypothesis, exercised only", "Go scheduler fairness",
+           "handler model: each statement group of the Go code is one atomic step; a stream end's Read gives buffered data, then the peer's end-of-stream, then the "
+           "session's error (as smux v1.5.14 does); payload is counted in chunks; go-multistream's negotiation is the two steps Peek / read a proposal",
+           "goroutines of a case are counted from the goroutine profile by function name (acceptStream, its per-stream literal, pipeData, listener.HandleConnection) "
+           "under a profiler label"]
 RUN_TIMEOUT = 3000
 CARRIERS = ["tcp", "tcp-starttls", "ws", "stdio", "kcp"]
+
+from . import hcases as _h
 
 
 def cases(tier, rng):
@@ -41,10 +61,22 @@ def cases(tier, rng):
     for c, k, n, procs in ([("tcp", 4, 4000000, 1), ("tcp", 8, 2000000, 1), ("ws", 4, 2000000, 2)] + ([("kcp", 4, 500000, 1), ("stdio", 4, 1000000, 2), ("tcp", 8, 500000, 1)] if thorough else [])):
         line = "c01par %s %d %d %d" % (c, k, n, procs)
         cs.append({"line": line, "key": line, "model": False, "tags": {"carrier": c, "k": k, "sc": "parallel", "n": n}})
+    # the real per-session handler (and the real client in front of it) over an in-memory carrier, driven by scripts of environment events and
+    # compared token for token with the handler model (Mux/Handler.v): one connection ends in every way - closed by the application, by the
+    # target, target failure, dial failing at once or late while a NEWER connection is open, channel refused, stream dropped before selection,
+    # a slow dial - while its neighbours must go on carrying data, keep their goroutines, their stream and their target connection
+    cs += _h.fixed_isolation() + _h.fixed_cli_isolation()
+    cs.append(_h.raw_case(["oi", "mr", 300, "oi", "pr", "gq"], "isolation"))      # 300 error-terminated connections, then one more
+    for i in range(150 if thorough else 14):
+        cs.append(_h.raw_case(_h.random_script(rng, 16 if thorough else 12, False), "random"))
+    for i in range(100 if thorough else 8):
+        cs.append(_h.cli_case(_h.random_cli_script(rng, 14 if thorough else 10, i % 4 == 3), "random"))
     return cs
 
 
 def oracle(case, impl):
+    if case["line"].startswith("c02h "):
+        return _h.oracle(case, impl, "isolation")
     t = case["tags"]
     p = impl.split()
     if t["sc"] == "parallel":
@@ -80,14 +112,22 @@ def oracle(case, impl):
     return out
 
 
+def shrink(case):
+    if case["line"].startswith("c02h "):
+        return _h.shrink(case)
+    return iter(())
+
+
 def agree(case, impl, model):
+    if case["line"].startswith("c02h "):
+        return _h.agree(case, impl, model)
     return None if impl == model else "independence"
 
 
 def distribution(cs):
     d = {}
     for c in cs:
-        k = "%s/%s" % (c["tags"]["carrier"], c["tags"]["sc"])
+        k = "%s/%s" % (c["tags"].get("carrier", "memory"), c["tags"].get("sc", c["tags"].get("src", "-")))
         d[k] = d.get(k, 0) + 1
     return d
 
@@ -95,8 +135,16 @@ def distribution(cs):
 META = {
     "level_text": "Partial: Coq theorems over a model of the per-session accept loop (handler inline or on its own goroutine - read from the "
                   "source): with a goroutine per stream every pending logical connection is served after steps of the loop alone, whatever the "
-                  "others do; inline handling is refuted. Scenarios with idle, slow, closing and busy neighbours run on several carriers.",
+                  "others do; inline handling is refuted. Scenarios with idle, slow, closing and busy neighbours run on several carriers. "
+                  "A second model makes every resource of the per-session handler and of the piping of one logical connection explicit (streams, target "
+                  "connections, accept loop, handler goroutine and two copy loops per connection, report channels; program counters over the Go "
+                  "statements; arbitrary schedule and environment): proved for every event list that an event of one connection changes nothing that "
+                  "belongs to another (frame), that every close was made by the owner of what it closed, and that a connection's next steps depend "
+                  "on its own record and the session's fate only (independence); the shared-variable close, a session-wide dial lock and a leaked slot "
+                  "semaphore are refuted with computed witnesses. The model's switches are read from the source by role on every run and the extracted "
+                  "model is compared token for token with the real handler and the real client over scripted histories.",
     "level_note": "Byte isolation across streams is smux's per-stream FIFO (hypothesis, exercised with tagged payloads). Scheduler fairness and "
                   "flow control are not modelled. Known finding: the stream-open race between smux and server-first multistream.",
-    "technique": "Coq proof over an accept-loop transition system + concurrent end-to-end scenarios",
+    "technique": "Coq proofs over an accept-loop transition system and over a resource-explicit handler model (invariant over all schedules) + scripted "
+                 "correspondence with the real handler and client + concurrent end-to-end scenarios",
 }
